@@ -342,8 +342,13 @@ fn reextract(c: &Circ, full: bool) -> Result<Circ, String> {
 }
 
 fn gen_pair(r: &mut Rng, family: &str, max_depth: usize) -> Option<CPair> {
+    gen_pair_n(r, family, max_depth, None)
+}
+
+/// `wide`: the same constructions on the given number of qubits (7-9: tensors of 2^14..2^18 entries)
+fn gen_pair_n(r: &mut Rng, family: &str, max_depth: usize, wide: Option<usize>) -> Option<CPair> {
     let pool = pick_pool(r);
-    let n = 1 + r.below(4);
+    let n = wide.unwrap_or_else(|| 1 + r.below(4));
     let base = |r: &mut Rng, n: usize, d: usize| gen_circuit(r, &params(n, d, pool));
     Some(match family {
         "independent" => {
@@ -1019,7 +1024,7 @@ pub fn run() {
     }
     let t = c.tier;
     c.set_rule(
-        "cases = pairs of unitary circuits (1..4 qubits) with a relation known by construction and confirmed by the simulator; each pair is put through 5 circuit-level and 5 graph-level entry points (evaluations counts entry-point groups); a pair is non-trivial when at least one circuit has a gate; distinct = distinct ordered pairs (64-bit hash). Counters answer:* / definite:* / unknown:* show how many definite answers were observed per level and mode",
+        "cases = pairs of unitary circuits (1..4 qubits; 7..9 in the family `wide`) with a relation known by construction and confirmed by the simulator; each pair is put through 5 circuit-level and 5 graph-level entry points (evaluations counts entry-point groups); a pair is non-trivial when at least one circuit has a gate; distinct = distinct ordered pairs (64-bit hash). Counters answer:* / definite:* / unknown:* show how many definite answers were observed per level and mode",
     );
     c.assume("gate-matrix simulator O3 (circuit level) and diagram evaluator O2 (graph level) are correct (self-tested at start, cross-checked against each other in C02/C08)");
     c.assume("float pool: pairs closer than 1e-6 but not within 1e-9 are not judged (inconclusive); Some(false)/tensor-false on float-equal pairs is judged for the rewriting check and only observed for the tensor check");
@@ -1051,6 +1056,21 @@ pub fn run() {
     fam!("wire-permutation", n, true);
     fam!("float-heavy-equal", n * 20, true);
     fam!("ancilla-observed", n, false);
+    {
+        let t0 = std::time::Instant::now();
+        par_cases("wide", t.pick(48usize, 2_000usize), move |r, i| {
+            let how = *r.pick(&["commuted", "cancelling", "one-gate", "global-phase", "global-phase", "hadamard-wires", "wire-permutation", "independent"]);
+            let nq = *r.pick(&[7usize, 8, 8]);
+            if let Some(p) = gen_pair_n(r, how, 4, Some(nq)) {
+                ctx().count(&format!("wide:construction:{how}"), 1);
+                ctx().maximum("max_qubits", nq as u64);
+                pair_case("wide", i, r, p, true);
+            } else {
+                ctx().skipped();
+            }
+        });
+        walls.insert("wide".to_string(), json!((t0.elapsed().as_secs_f64() * 10.0).round() / 10.0));
+    }
     c.extra("family_wall_s", Value::Object(walls));
     c.extra("exhaustive", json!(false));
 }
